@@ -132,3 +132,19 @@ Theorem C02_align_first_only_refuted :
     In r (concat (spec_plan idZ (align_divisions ds) P)).
 Proof. exact align_first_only_refuted. Qed.
 Print Assumptions C02_align_first_only_refuted.
+
+(* n smallest / first n rows of the sorted input (NFirst, NSmallest: chunk = aggregate = "stable sort, keep the first n") give the
+   same rows in the same order for EVERY partitioning: exact list equality, ties in global row order.  (The tree shape -- split_every --
+   is irrelevant by TreeReduce.tree_layer_correct.)  Tie: T-LAYER select_layer (real nsmallest vs the extracted nfirst_tree). *)
+From DX Require Import Select SelectProofs.
+Theorem C02_nsmallest_partition_independent : forall A (key : A -> Z) n (parts : list (list A)),
+  nfirst_tree key n parts = firstn n (sort_rows key (concat parts)).
+Proof. exact nfirst_tree_correct. Qed.
+Print Assumptions C02_nsmallest_partition_independent.
+
+Theorem C02_sort_rows_is_stable_sort : forall A (key : A -> Z) (l : list A),
+  Permutation (sort_rows key l) l /\
+  Sorted.StronglySorted (fun a b => (key a <= key b)%Z) (sort_rows key l) /\
+  (forall z, filter (fun a => (key a =? z)%Z) (sort_rows key l) = filter (fun a => (key a =? z)%Z) l).
+Proof. intros A key l. split; [apply sort_rows_perm|]. split; [apply sort_rows_sorted|]. intro z. apply sort_rows_stable. Qed.
+Print Assumptions C02_sort_rows_is_stable_sort.
